@@ -68,11 +68,11 @@ struct ETrivT {
 };
 typedef ETrivT<int> ETriv;
 typedef ETrivT<int16_t> ETrivS;  // 4 bytes: two slots overlap the heap pointer of a SmallVector
-/// over-aligned element: an object of it found at an address that is not a multiple of 16 counts as garbage
-struct alignas(16) EAl16 : ETrivT<int> {
+/// over-aligned element (beyond max_align_t): an object of it found at an address that is not a multiple of 32 counts as garbage
+struct alignas(32) EAl16 : ETrivT<int> {
   EAl16() = default;
   EAl16(int k, int p) : ETrivT<int>(k, p) {}
-  static int state_of(const EAl16 &e) { return ((uintptr_t)&e % 16) == 0 ? ES_ALIVE : ES_GARBAGE; }
+  static int state_of(const EAl16 &e) { return ((uintptr_t)&e % 32) == 0 ? ES_ALIVE : ES_GARBAGE; }
 };
 typedef ETrivT<int8_t> ETrivB;   // 2 bytes: four slots overlap the heap pointer (keys and payloads stay below 128)
 
